@@ -22,6 +22,11 @@ CLAIMS = {
         technique='differential symbolic execution (CrossHair/z3) of scoping templates vs reference scope stack; symbolic operation sequences on utils.Scope vs two-level model; symbolic names through the reserved-name predicate',
         text='Per scoping template the solver decides visibility probes for every initial binding state; Scope operations and the reserved-name predicate are decided for all operation codes/keys/values resp. all code points within the bound.',
         note=G_NOTE),
+    'C13': dict(
+        engine='G', level='translation_validation', design_ref='DESIGN.md 4 C13',
+        technique='differential symbolic execution (CrossHair/z3): compiled render function vs reference try/except-per-element semantics; failing evaluation points symbolic',
+        text='Per enumerated on-error template the solver decides output and handler-call sequence for every assignment of {ok, raises} to the evaluation points.',
+        note=G_NOTE),
     'C03': dict(
         engine='X+Z', level='model_checking', design_ref='DESIGN.md 4 C03',
         technique='symbolic execution (CrossHair/z3) of iter_xml/match_tag/emitters on shape-enumerated character-symbolic strings; z3 regex inclusion from the live lexer pattern',
